@@ -218,6 +218,9 @@ func sessPMTFor(id string) func(c CaseC14, a *hx.Arena) (hx.SessionRun, *hx.Fail
 				if err2 == nil {
 					pmt2.IsPidForStreamWherePresentationLagsEbp(m.Streams[len(m.Streams)-1].PID) // (a first query before the removal)
 					pmt2.RemoveElementaryStreams([]int{m.Streams[0].PID})
+					if !pmt2.PIDExists(m.Streams[0].PID) && pmt2.IsPidForStreamWherePresentationLagsEbp(m.Streams[0].PID) {
+						return hx.SessionRun{}, hx.Failf("lag-query-after-removal", "IsPidForStreamWherePresentationLagsEbp(%d) is true for a PID that is no longer in the PMT", m.Streams[0].PID)
+					}
 					for _, s := range m.Streams[1:] {
 						if got := pmt2.IsPidForStreamWherePresentationLagsEbp(s.PID); got != c20Lag[int(s.StreamType)] {
 							return hx.SessionRun{}, hx.Failf("lag-query-after-removal", "after removing the first stream IsPidForStreamWherePresentationLagsEbp(%d) = %v for stream_type %#x", s.PID, got, s.StreamType)
@@ -355,6 +358,9 @@ func sessSCTEEncode(c CaseC09, a *hx.Arena) (hx.SessionRun, *hx.Failure) {
 		}
 		st.sig = s
 		st.m = c09DecodedView(c.Splice)
+		if kept, same := c09DecodedOrder(s, &st.m); !kept && same {
+			return hx.SessionRun{}, nil
+		}
 		carries, cp := c.Splice.CarriesTime()
 		if !carries {
 			cp = 0
@@ -480,7 +486,7 @@ func sessPacketRun(id string, c CaseC02, a *hx.Arena) (hx.SessionRun, *hx.Failur
 	ms := []made{
 		{"CreateTestPacket", packet.CreateTestPacket(pid, cc, c.PUSI, c.Pay), c.Pay, c.PUSI && c.Pay},
 		{"CreateDCPacket", packet.CreateDCPacket(pid, cc), packet.CreateDCPacket(pid, cc)[3]&0x10 != 0, false}, // the payload flag is not among the requested fields
-		{"CreatePacketWithPayload", packet.CreatePacketWithPayload(pid, cc, c.HPay), true, false},
+		{"CreatePacketWithPayload", packet.CreatePacketWithPayload(pid, cc, head(c.HPay, 184)), true, false},
 		{"Create", packet.Create(pid, packet.WithHasPayloadFlag), true, false},
 	}
 	if id != "C02" {
@@ -488,6 +494,9 @@ func sessPacketRun(id string, c CaseC02, a *hx.Arena) (hx.SessionRun, *hx.Failur
 	}
 	for _, mk := range ms {
 		mk := mk
+		if mk.p == nil {
+			return hx.SessionRun{}, hx.Failf("create-"+mk.name, "%s returned nil", mk.name)
+		}
 		snapshot := *mk.p
 		probes = append(probes, func() *hx.Failure {
 			q := mk.p
